@@ -12,6 +12,7 @@ import (
 	"pgregory.net/rapid"
 
 	"verifharness/desc"
+	"verifharness/lib"
 )
 
 // ---- shared generators for the struct-shaped properties (C02, C03, C04, C16, C17, C08, C11, C12) ----
@@ -356,10 +357,33 @@ func (g *structGen) addExtraTags(f *desc.F, kind string, v desc.V) {
 
 var cheapScalarKinds = []string{"string", "string", "string", "int", "int32", "int64", "int8", "uint", "uint8", "uint32", "float64", "float32", "bool"}
 
+// maybeNamed turns a scalar type descriptor into its named (defined) variant
+// now and then (generated code is full of named scalar types, e.g. enums).
+func maybeNamed(t *rapid.T, ty desc.T) desc.T {
+	if _, ok := lib.NamedScalars[ty.K]; ok && ty.Name == "" && rapid.IntRange(0, 4).Draw(t, "namedScalar") == 0 {
+		ty.Name = "My"
+	}
+	return ty
+}
+
+// maybeNamedDeep applies maybeNamed to a scalar type or to the element type of
+// a slice / array of scalars.
+func maybeNamedDeep(t *rapid.T, ty desc.T) desc.T {
+	if (ty.K == "slice" || ty.K == "array") && ty.Elem != nil && ty.Elem.Elem == nil {
+		e := maybeNamed(t, *ty.Elem)
+		ty.Elem = &e
+		return ty
+	}
+	if ty.Elem == nil && ty.K != "struct" {
+		return maybeNamed(t, ty)
+	}
+	return ty
+}
+
 func (g *structGen) scalarField(name string) (desc.F, desc.V) {
 	kind := rapid.SampledFrom(g.scalarKinds).Draw(g.t, "kind")
 	v := genScalar(g.t, kind, "val", true)
-	f := desc.F{Name: name, T: desc.Scalar(kind)}
+	f := desc.F{Name: name, T: maybeNamed(g.t, desc.Scalar(kind))}
 	if r := g.leafRules(kind, v); r != "" || rapid.IntRange(0, 5).Draw(g.t, "emptyTag") == 0 {
 		f.Tags = map[string]string{g.tag: r}
 	}
